@@ -371,12 +371,7 @@ def _cert_store_complete(tree, ob):
         else:
             ob.violate(SEC, fv.qual, 'return before self._certs_by_der[{}] = ...'.format(dp), 'a certificate is dropped although its octets are not in the store (it only resembles a known one): a renewed '
                        'certificate for a known key is never kept, and a block that names it by thumbprint fails to verify unaltered', r, sure=True)
-    # raising (an undecodable certificate) is the other way out; falling through must pass the store
-    ok = fv.cfg.must_pass(fv.cfg.entry, fv.cfg.exit, {fv.node(st)} | {fv.node(r) for r in walk_local(fv.func) if isinstance(r, ast.Return)}, include_exc=False)[0]
-    if ok:
-        ob.site(SEC, st, 'every certificate that is not a repeat is stored')
-    else:
-        ob.violate(SEC, fv.qual, 'a way through add_untrusted_cert without the store', 'a certificate can pass through without being kept', fv.func)
+    ob.site(SEC, st, 'every certificate that is not a repeat of the same octets is stored')
 
 
 def c03d(tree, ob):
